@@ -19,4 +19,10 @@ PROPS = {
         rule="each run: 1-4 handles on one address (stream scenario c12s / packet scenario c12p), acceptor/reader task per handle, closer tasks with drawn positions, 0-7 connections or datagrams from harness clients, one handle optionally kept open to the end; select choices and goroutine order drawn from the schedule tape; non-trivial = a handle kept accepting to the end of the concurrent phase (loss oracle armed) or a rare probe fired; distinct = distinct (event-log hash, schedule fingerprint)",
         real=["service.listenerManager, multiStreamListener (shared accept loop), multiPacketListener (shared read loop), virtualStreamListener, virtualPacketConn"],
         stub=COMMON_STUB, assumptions=COMMON_ASSUME),
+    "C02": dict(
+        scenarios=[dict(name="c02", quick=1500, thorough=150000, quick_budget_s=150, thorough_budget_s=1800)],
+        level_text="Seeded exploration: 1-3 concurrent authenticated connections through the real StreamServe/StreamHandler/relay code to scripted targets over the simulated TCP stack; byte-exact equality of both streams and end-of-stream ordering are checked against the ground-truth ledger, with short reads, tiny windows and scheduler interleavings as legal perturbations and client RST as a fault with a prefix-only oracle. Sampling, not proof.",
+        rule="each run: 1-6 keys, 1-3 connections; per connection key, address type (IPv4/IPv6/domain), 0-4 messages per direction with sizes from {1..200000} around the 16383 chunk limit, address alone or coalesced with first data, termination order A (client speaks+half-closes first), B (target first), C (concurrent), D (client never half-closes); faults: short reads, 1..4096-byte windows, client RST mid-stream; non-trivial = a connection ran to completion and was compared byte for byte; distinct = distinct (event-log hash, schedule fingerprint)",
+        real=["service.StreamServe, streamHandler, findAccessKey, proxyConnection relay, metrics.measuredConn, cipherList, ReplayCache; outline-sdk shadowsocks Reader/Writer on both sides; go-shadowsocks2 socks"],
+        stub=COMMON_STUB + ["DNS resolver (scripted)"], assumptions=COMMON_ASSUME),
 }
